@@ -827,7 +827,9 @@ def gen_constructor(rng, kind, count, cbs, runnable=False, oneshot=0.3):
 
 def gen_wellformed(rng, kind=None, count=None, builds=None, mod=None, runnable=False):
     kind = kind or rng.choice(KINDS)
-    count = rng.randint(0, 3) if count is None else count
+    if count is None:
+        # wide bodies now and then: with 11 or more body arguments their generated names no longer sort like their positions
+        count = rng.choice([9, 10, 12]) if rng.random() < 0.08 else rng.randint(0, 3)
     cbs = []
     op = gen_constructor(rng, kind, count, cbs, runnable=runnable, oneshot=0.0 if runnable else 0.3)
     builds = rng.randint(0, 3) if builds is None else builds
